@@ -245,6 +245,8 @@ def run(ctx):
             obs.iloc[a:a + 24 * rng.choice([1, 2])] = np.nan
         with_obs = rng.random() < 0.6
         combo = rng.choice(["fw-su_sh_wi", "fw-sh_wi__wd-su__we-su", "wd-su_sh_wi__we-su_sh_wi"])
+        if k % 3 == 0:
+            combo = "wd-su_sh_wi__we-su_sh_wi"      # the zero-degree days are exactly the days of one sub-model (the second, or the first)
         try:
             rd = DailyReportingData.from_series(obs if with_obs else None, t, is_electricity_data=True)
         except Exception as e:  # noqa
